@@ -190,3 +190,51 @@ Definition ret_owned (p : prog) (name : string) : bool :=
   | Some (fi, _) => match sget (summaries p) fi with [] => true | _ => false end
   | None => false
   end.
+
+(* ---------------------------------------------------------------- documented in-place effects (census) *)
+(* A census row (generated, whole package): a statement that assigns to / updates in place the `.data`, `._grad`
+   or `.grad` of some object, or calls `.zero_()`:  (module, function, kind, line).                          *)
+Open Scope string_scope.
+Definition census_row := (string * string * string * nat)%type.
+
+Definition ends_with (s suf : string) : bool :=
+  Nat.leb (String.length suf) (String.length s) &&
+  String.eqb (substring (String.length s - String.length suf) (String.length suf) s) suf.
+
+Inductive category := OptimizerStep | Initialiser | BatchNormStats | ZeroGrad | GradAssignment | GradAccumulation | Construction.
+
+(* the documented mutators of the package: (module, function, kinds allowed, category) *)
+Definition documented : list (string * string * list string * category) :=
+  [ ("optim.optimizers", "SGD.step", ["DataInPlace"], OptimizerStep);
+    ("optim.optimizers", "Adam.step", ["DataInPlace"], OptimizerStep);
+    ("optim.optimizers", "AdamW.step", ["DataInPlace"], OptimizerStep);
+    ("optim.optimizers", "Optimizer.zero_grad", ["ZeroCall"], ZeroGrad);
+    ("nn.modules", "Module.zero_grad", ["ZeroCall"], ZeroGrad);
+    ("nn.init", "uniform_", ["DataRebind"], Initialiser);
+    ("nn.init", "normal_", ["DataRebind"], Initialiser);
+    ("nn.init", "constant_", ["DataRebind"], Initialiser);
+    ("nn.init", "ones_", ["DataRebind"], Initialiser);
+    ("nn.init", "zeros_", ["DataRebind"], Initialiser);
+    ("nn.functional", "batch_norm", ["DataRebind"], BatchNormStats);
+    ("tensor", "Tensor.zero_", ["GradRebind"], ZeroGrad);
+    ("tensor", "Tensor.grad.setter", ["GradRebind"], GradAssignment);
+    ("tensor", "Tensor.backward", ["GradInPlace"; "GradRebind"; "GradDel"; "ZeroCall"], GradAccumulation);
+    ("tensor", "Tensor.__init__", ["DataRebind"; "GradRebind"], Construction) ].
+
+Definition smemb (x : string) (l : list string) : bool := existsb (String.eqb x) l.
+
+Definition row_category (r : census_row) : option category :=
+  let '(m, f, k, _) := r in
+  if (String.eqb m "functional" || String.eqb m "nn.functional") && ends_with f ".backward" && String.eqb k "GradInPlace"
+  then Some GradAccumulation          (* the backward closures: `<operand>._grad += ...` *)
+  else match find (fun '(m', f', ks, _) => String.eqb m m' && String.eqb f f' && smemb k ks) documented with
+       | Some (_, _, _, c) => Some c
+       | None => None
+       end.
+
+Definition census_documented (rows : list census_row) : bool :=
+  forallb (fun r => match row_category r with Some _ => true | None => false end) rows.
+
+(* every documented site really occurs (the list is exact, not merely an upper bound) *)
+Definition documented_all_present (rows : list census_row) : bool :=
+  forallb (fun '(m, f, ks, _) => existsb (fun '(m', f', k, _) => String.eqb m m' && String.eqb f f' && smemb k ks) rows) documented.
